@@ -1622,3 +1622,86 @@ Qed.
 End Invocation.
 
 End WithCfg.
+
+(* ------------------------------------------------------------------ the decidable hypotheses *)
+Definition relokb (r : bytes) : bool := forallb plainb (psplit r).
+Definition cfg_ok (c : cfgT) : bool :=
+  is_clean_abs (c_layers c) && is_clean_abs (c_exports c)
+  && negb (at_or_under (c_layers c) (c_exports c)) && negb (at_or_under (c_exports c) (c_layers c))
+  && relokb (c_buildroot c) && relokb (c_work c) && relokb (c_upper c)
+  && relokb (c_exp_binpkg c) && relokb (c_exp_gen c).
+Definition is_cfg_path (c : cfgT) (p : bytes) : bool :=
+  beq (pathdir (pathdir p)) (c_layers c) && beq (pathbase p) D_LayerconfigFile.
+Definition fs_ok (c : cfgT) (f : fsT) : bool :=
+  forallb (fun e => is_clean_abs (fst e)) f
+  && forallb (fun e => match snd e with Link _ => negb (is_cfg_path c (fst e)) | _ => true end) f
+  && forallb (fun e => beq (fst e) root || match fs_get f (pathdir (fst e)) with Some Dir => true | _ => false end) f.
+
+Lemma relokb_spec r : relokb r = true -> exists rs, plains rs /\ rs <> [] /\ r = pjoin rs.
+Proof.
+  intros H. exists (psplit r). split; [|split].
+  - apply Forall_forall. intros x Hx. apply plainb_spec. unfold relokb in H. rewrite forallb_forall in H. auto.
+  - apply split_acc_nonempty.
+  - unfold pjoin, psplit. now rewrite join_split.
+Qed.
+
+Lemma cfg_ok_spec c : cfg_ok c = true ->
+  exists Lc bsr wsr usr Ec bpr gpr,
+    plains Lc /\ c_layers c = pa Lc /\
+    (plains bsr /\ bsr <> [] /\ c_buildroot c = pjoin bsr) /\
+    (plains wsr /\ wsr <> [] /\ c_work c = pjoin wsr) /\
+    (plains usr /\ usr <> [] /\ c_upper c = pjoin usr) /\
+    (plains Ec /\ c_exports c = pa Ec /\ (forall r1 r2, Lc ++ r1 <> Ec ++ r2)) /\
+    (plains bpr /\ bpr <> [] /\ c_exp_binpkg c = pjoin bpr) /\
+    (plains gpr /\ gpr <> [] /\ c_exp_gen c = pjoin gpr).
+Proof.
+  unfold cfg_ok. rewrite !andb_true_iff. intros ((((((((H1 & H2) & H3) & H4) & H5) & H6) & H7) & H8) & H9).
+  apply clean_abs_repr in H1 as (Lc & PL & EL). apply clean_abs_repr in H2 as (Ec & PE & EE).
+  destruct (relokb_spec _ H5) as (bsr & B). destruct (relokb_spec _ H6) as (wsr & W).
+  destruct (relokb_spec _ H7) as (usr & U). destruct (relokb_spec _ H8) as (bpr & BP). destruct (relokb_spec _ H9) as (gpr & GP).
+  exists Lc, bsr, wsr, usr, Ec, bpr, gpr. repeat (split; [assumption|]). split; [|split; assumption].
+  split; [exact PE|]. split; [exact EE|]. intros r1 r2 E.
+  apply negb_true_iff in H3, H4. rewrite EL, EE in H3, H4.
+  destruct (list_prefix_comparable _ _ _ _ E) as [(r & Er)|(r & Er)].
+  - assert (at_or_under (pa Lc) (pa Ec) = true); [|congruence]. apply at_or_under_pa; auto. now exists r.
+  - assert (at_or_under (pa Ec) (pa Lc) = true); [|congruence]. apply at_or_under_pa; auto. now exists r.
+Qed.
+
+Lemma fs_ok_spec c Lc f : plains Lc -> c_layers c = pa Lc -> fs_ok c f = true ->
+  fs_clean f /\ nolink Lc f /\ closed f.
+Proof.
+  intros PL EL. unfold fs_ok. rewrite !andb_true_iff, !forallb_forall. intros ((H1 & H2) & H3). split; [|split].
+  - intros p n Hin. exact (H1 _ Hin).
+  - intros x t Px Eg. apply fs_get_In in Eg. specialize (H2 _ Eg). cbn [fst snd] in H2.
+    apply negb_true_iff in H2. unfold is_cfg_path, cfgp in H2.
+    change (Lc ++ [x; lcf]) with (Lc ++ [x] ++ [lcf]) in H2. rewrite app_assoc in H2.
+    assert (PX : plains (Lc ++ [x])) by (apply plains_app; split; [exact PL|constructor; [exact Px|constructor]]).
+    rewrite pathdir_pa, pathdir_pa, pathbase_pa, EL, !beq_refl in H2; auto using plain_lcf. discriminate.
+  - intros p n Hin Hr. specialize (H3 _ Hin). cbn [fst] in H3. apply orb_true_iff in H3 as [H3|H3].
+    + apply beq_true in H3. contradiction.
+    + destruct (fs_get f (pathdir p)) as [[| |]|]; try discriminate. reflexivity.
+Qed.
+
+Definition in_scope (e : env) (cmd : command) (res : rclass) : bool :=
+  covered cmd || e_pretend e
+  || match cmd, res with CRename _ _, ROk => true | _, _ => false end.
+
+Theorem forest_preserved_run e c um cmd s :
+  cfg_ok c = true -> fs_ok c (w_fs (s_w s)) = true ->
+  LC.nodup_paths (children (w_fs (s_w s)) (c_layers c)) = true ->
+  in_scope e cmd (rclass_of (fst (run_command e c um cmd s))) = true ->
+  C02.forest_ok c (w_fs (s_w s)) = true ->
+  C02.forest_ok c (w_fs (s_w (snd (run_command e c um cmd s)))) = true.
+Proof.
+  intros Hcfg Hfs Hnd Hsc HF.
+  destruct (cfg_ok_spec c Hcfg) as (Lc & bsr & wsr & usr & Ec & bpr & gpr & PL & EL & HB & HW & HU & HE & HBP & HGP).
+  destruct (fs_ok_spec c Lc _ PL EL Hfs) as (Hc0 & Hn0 & Hcl0).
+  apply (forest_ok_iff c) in HF. apply (forest_ok_iff c).
+  unfold in_scope in Hsc. apply orb_true_iff in Hsc as [Hsc|Hsc]; [apply orb_true_iff in Hsc as [Hsc|Hsc]|].
+  - now apply (forest_kept_covered c Lc PL EL bsr wsr usr HB HW HU Ec bpr gpr HE HBP HGP e um s Hc0 Hn0 Hcl0 HF cmd).
+  - rewrite (pretend_same c bsr wsr usr HB HW HU e um s (nodup_paths_NoDup _ Hnd) cmd Hsc). exact HF.
+  - destruct cmd; try discriminate. destruct (e_pretend e) eqn:Hp.
+    + rewrite (pretend_same c bsr wsr usr HB HW HU e um s (nodup_paths_NoDup _ Hnd) (CRename a b0) Hp). exact HF.
+    + pose proof (forest_kept_rename c Lc PL EL bsr wsr usr HB HW HU Ec bpr gpr HE HBP HGP e um s Hc0 Hn0 Hcl0 HF a b0 Hp) as H.
+      destruct (run_command e c um (CRename a b0) s) as [[r| | | |] s']; try discriminate. exact H.
+Qed.
